@@ -568,6 +568,8 @@ def translate(S):
     S.fn("clock/clock_speed.rs", "impl ClockSpeed", "as_seconds_per_tick", "clockSpeedAsSecondsPerTick", self_type="ClockSpeed")
     S.fn("clock/clock_speed.rs", "impl ClockSpeed", "as_ticks_per_second", "clockSpeedAsTicksPerSecond", self_type="ClockSpeed")
     S.fn("clock/clock_speed.rs", "impl ClockSpeed", "as_ticks_per_minute", "clockSpeedAsTicksPerMinute", self_type="ClockSpeed")
+    S.fn("clock/clock_speed.rs", "impl ClockSpeed", "interpolate_in_unit_of_start", "clockSpeedInterpolateInUnitOfStart",
+         self_type="ClockSpeed")
     S.fn("clock/clock_speed.rs", "impl Tweenable for ClockSpeed", "interpolate", "clockSpeedInterpolate",
          self_type="ClockSpeed", trait=TW)
 
